@@ -188,4 +188,8 @@ def rescalePower : ℚ := 1 / 2
 /-- `norm(squared=False)` is `np.power(diag, normPower)`. -/
 def normPower : ℚ := 1 / 2
 
+/-- `normalize(**kwargs)` divides by `self.norm(**kwargs)`: every keyword (`squared`,
+`method_integration`, …) reaches `norm`, as in the grid classes. -/
+def normalizeForwardsKeywords : Bool := true
+
 end FDA
